@@ -45,14 +45,15 @@ D1Quick == LeavesQ \cup Un1(LeavesQ) \cup Bin1(OpsQ, {Ra}, {Rb, LI, LF}) \cup Bi
 AplusB == <<"B", "+", Ra, Rb>>
 AtimesB == <<"B", "*", Ra, Rb>>
 XCnt == <<"X", <<"B", "<", Cnt, LI>>>>
-D2Quick == { <<"B", "+", AplusB, Rb>>, <<"B", "<", AtimesB, Rb>>, <<"U", "-", AtimesB>>, <<"F", "int", <<AplusB>>>>,
-             <<"B", "+", <<"B", "*", Cnt, Rb>>, Rb>>, <<"B", "AND", <<"U", "!", Ra>>, Rb>>, <<"B", "AND", <<"U", "!", Ra>>, LB>>,
+D2Quick == { <<"B", "+", AplusB, Rb>>, <<"B", "<", AtimesB, LI>>, <<"U", "-", AtimesB>>, <<"F", "int", <<AplusB>>>>,
+             <<"B", "+", <<"B", "*", Cnt, Rb>>, LI>>, <<"B", "AND", <<"U", "!", Ra>>, Rb>>, <<"B", "AND", <<"U", "!", Ra>>, LB>>,
              <<"B", "AND", XCnt, Ra>>, <<"B", "==", XCnt, LB>>, <<"X", <<"B", "+", Cnt, Ra>>>>,
              <<"F", "if", <<Ra, Cnt, LI>>>> }
 MCASTsQuick == D1Quick \cup D2Quick
 (* thorough: every depth <= 1 AST over the reduced operator set, and every depth-2 AST built from an inner     *)
 (* binary/unary node over the references and an outer operator, unary, call, if() or nested lambda              *)
-D2Thorough == D2({"+", "<"}, Bin1({"+", "*"}, {Ra}, {Rb}) \cup Bin1({"*"}, {Cnt}, {Rb}) \cup { <<"U", "!", Ra>> }, {Rb})
+D2Thorough == D2({"+", "<", "AND"}, Bin1({"+", "*", "/", "<"}, {Ra}, {Rb}) \cup Bin1({"*", "<"}, {Cnt}, {Rb})
+                                    \cup { <<"U", "!", Ra>>, <<"U", "-", Ra>>, <<"F", "float", <<Ra>>>> }, {Rb, LI})
 MCASTsThorough == D1(OpsQ, LeavesQ, FunsQ) \cup D2Thorough \cup D2Quick
 (* the widest sets (not registered: hours) *)
 MCASTsWide == D1(OpsT, LeavesT, FunsT) \cup D2(OpsT, InnerT, {Rb, LI, LF, LB, LD})
@@ -66,6 +67,7 @@ VBt == <<"b", TRUE>>
 VBf == <<"b", FALSE>>
 VD == <<"d", 1000>>
 VM == <<"m">>
-MCValsQuick == {VI2, VF2, VSa, VBt, VBf, VD, VM}
+MCValsQuick == {VI2, VF2, VBt, VBf, VD, VM}
+MCValsMid == {VI2, VF2, VSa, VBt, VBf, VD, VM}
 MCValsThorough == {VI0, VI2, VF2, VFh, VSa, VBt, VBf, VD, VM, <<"t", 61>>}
 =============================================================================
